@@ -54,6 +54,9 @@ type W struct {
 	// yield once, not twice
 	justHooked uintptr
 	sleepUntil int // delay injection: not schedulable before this controller step
+	// Quiet: the worker passes its scheduling points without parking (a long
+	// stretch that is about the history of calls, not about their interleaving)
+	Quiet bool
 }
 
 // Sched is the controller.
@@ -149,6 +152,9 @@ func (w *W) waitRelease() {
 //
 //go:norace
 func (w *W) Yield(site int) {
+	if w.Quiet {
+		return
+	}
 	w.site = site
 	w.blocked = false
 	w.justHooked = 0
@@ -182,8 +188,8 @@ func (s *Sched) Current() *W { return s.cur }
 //go:norace
 func (s *Sched) LockHook(site int, m *sync.Mutex, rw *sync.RWMutex, write bool) {
 	w := s.cur
-	if w == nil {
-		return // single-threaded phase (setup, final flush)
+	if w == nil || w.Quiet {
+		return // single-threaded phase (setup, final flush), or a stretch without scheduling points
 	}
 	w.site = site
 	w.blocked = false
